@@ -168,6 +168,33 @@ fn ptrace_detach(child: Pid) -> Result<(), DumperError> {
     })
 }
 
+#[cfg(feature = "verif-hooks")]
+impl PtraceDumper {
+    /// Verification hook: a dumper with caller-chosen threads / mappings / page size that never
+    /// attached to anything (`threads_suspended == false`, so dropping it detaches nothing).
+    pub fn verif_synthetic(
+        pid: Pid,
+        threads: Vec<Thread>,
+        mappings: Vec<MappingInfo>,
+        page_size: usize,
+        auxv: AuxvDumpInfo,
+    ) -> Self {
+        Self {
+            pid,
+            threads_suspended: false,
+            threads,
+            auxv,
+            mappings,
+            page_size,
+        }
+    }
+
+    /// Verification hook: whether the dumper currently believes its threads are suspended.
+    pub fn verif_threads_suspended(&self) -> bool {
+        self.threads_suspended
+    }
+}
+
 impl PtraceDumper {
     /// Constructs a dumper for extracting information from the specified process id
     pub fn new_report_soft_errors(
@@ -219,6 +246,8 @@ impl PtraceDumper {
         {
             soft_errors.push(InitError::EnumerateThreadsFailed(Box::new(e)));
         }
+        #[cfg(feature = "verif-hooks")]
+        crate::linux::verif_hooks::sync("threads_enumerated", 0);
 
         // Same with mappings -- Some information is still better than no information!
         if let Err(e) = self.enumerate_mappings() {
@@ -244,6 +273,8 @@ impl PtraceDumper {
     /// Suspends a thread by attaching to it.
     pub fn suspend_thread(child: Pid) -> Result<(), DumperError> {
         use DumperError::PtraceAttachError as AttachErr;
+        #[cfg(feature = "verif-hooks")]
+        crate::linux::verif_hooks::sync("before_attach", child);
 
         let pid = nix::unistd::Pid::from_raw(child);
         // This may fail if the thread has just died or debugged.
@@ -328,6 +359,8 @@ impl PtraceDumper {
         });
 
         self.threads_suspended = true;
+        #[cfg(feature = "verif-hooks")]
+        crate::linux::verif_hooks::sync("threads_suspended", 0);
 
         failspot::failspot!(<crate::FailSpotName>::SuspendThreads soft_errors.push(DumperError::PtraceAttachError(1234, nix::Error::EPERM)))
     }
